@@ -422,6 +422,81 @@ def _rewrite_early_return(body, applied):
     return body
 
 
+def _rewrite_chunk_fold(body, applied):
+    """R25: a tail expression `E.chunks(N).map(|x| B1).rev().fold(INIT, |acc, y| B2)` is desugared to the reverse index
+    loop it denotes (std semantics of chunks / map / rev / fold: A-STD, stand-ins `chunks_len`, `chunk_at`):
+        let chunk_n_ = N; let src_ = E; let mut acc_ = INIT; let mut k_ = chunks_len(src_, chunk_n_);
+        while k_ > 0 { k_ = k_ - 1; let ck_ = chunk_at(src_, chunk_n_, k_); let xm_ = { let x = ck_; B1 };
+                       let ghost acc0_ = acc_; acc_ = { let acc = acc_; let y = xm_; B2 }; }
+        acc_
+    Proof text refers to the generated names only.  Returns the body unchanged when the tail has another shape."""
+    k = _tail_start(body)
+    tail = body[k:-1]
+    ts = Src("<t>", tail)
+    clean = "".join(c if ts.mask[i] else " " for i, c in enumerate(tail))
+    m = re.match(r'\s*([\w:.]+?)\s*\.\s*chunks\s*\(', clean)
+    if not m or '.fold' not in clean:
+        return body
+
+    def args_at(open_idx):
+        close = ts.match_close(open_idx)
+        return tail[open_idx + 1:close], close
+
+    recv = m.group(1)
+    n_expr, c1 = args_at(m.end() - 1)
+    m2 = re.compile(r'\s*\.\s*map\s*\(').match(clean, c1 + 1)
+    if not m2:
+        raise Unsupported("R25: `.chunks(..)` not followed by `.map(..)`")
+    map_arg, c2 = args_at(m2.end() - 1)
+    m3 = re.compile(r'\s*\.\s*rev\s*\(\s*\)\s*\.\s*fold\s*\(').match(clean, c2 + 1)
+    if not m3:
+        raise Unsupported("R25: `.map(..)` not followed by `.rev().fold(..)`")
+    fold_arg, c3 = args_at(m3.end() - 1)
+    if clean[c3 + 1:].strip():
+        raise Unsupported("R25: text after `.fold(..)`")
+    mc = re.match(r'\s*\|\s*(\w+)\s*\|\s*(.*)$', map_arg, re.S)
+    if not mc:
+        raise Unsupported("R25: map closure is not `|x| ..`")
+    # fold args: INIT , |acc, y| BODY   (split at the first top-level comma)
+    fs = Src("<f>", fold_arg)
+    depth = 0
+    cut = None
+    for i, ch in enumerate(fold_arg):
+        if fs.mask[i]:
+            if ch in '([{':
+                depth += 1
+            elif ch in ')]}':
+                depth -= 1
+            elif ch == ',' and depth == 0:
+                cut = i
+                break
+    if cut is None:
+        raise Unsupported("R25: fold needs two arguments")
+    init = fold_arg[:cut].strip()
+    fc = re.match(r'\s*\|\s*(\w+)\s*,\s*(\w+)\s*\|\s*(.*)$', fold_arg[cut + 1:], re.S)
+    if not fc:
+        raise Unsupported("R25: fold closure is not `|acc, x| ..`")
+    x1, b1 = mc.group(1), mc.group(2).strip()
+    a2, x2, b2 = fc.group(1), fc.group(2), fc.group(3).strip()
+    new_tail = f"""
+        let chunk_n_: usize = {n_expr.strip()};
+        let src_ = {recv};
+        let mut acc_ = {init};
+        let mut k_: usize = chunks_len(src_, chunk_n_);
+        while k_ > 0
+        {{
+            k_ = k_ - 1;
+            let ck_ = chunk_at(src_, chunk_n_, k_);
+            let xm_ = {{ let {x1} = ck_; {b1} }};
+            let ghost acc0_ = acc_;
+            acc_ = {{ let {a2} = acc_; let {x2} = xm_; {b2} }};
+        }}
+        acc_
+    """
+    applied.append(("R25", "E.chunks(N).map(|x| B1).rev().fold(INIT, |acc, y| B2)", "reverse index loop over chunks_len / chunk_at (A-STD)"))
+    return body[:k] + new_tail + "}"
+
+
 def _tail_start(body):
     """offset in `body` ('{...}') where the tail expression starts (after the last top-level statement)"""
     s = Src("<b>", body)
@@ -593,6 +668,8 @@ def build_fn(unit, item, imp, fnitem, spec: Fn, cover=False):
         if n21:
             applied.append(("R21", "a + b / a - b / a * b / a op= b", f"core::ops::<Trait>::<method>(a, b) x{n21}"))
     body = _rewrite_continue(body, applied)
+    if re.search(r'\.\s*chunks\s*\(', body):
+        body = _rewrite_chunk_fold(body, applied)
     if getattr(unit, "tail_assert", False):
         body = _rewrite_early_return(body, applied)
     # R18: unroll constant-bound `for` loops (no invariant needed, so no reference to the body's locals)
